@@ -187,13 +187,15 @@ fn req(g: bool, sw: bool, sid: bool, norm: bool, a: &str, b: &str) -> Vec<u64> {
 }
 
 fn small_str(ctx: &mut Ctx, max: usize) -> String {
-    let alpha = ['a', 'b', ' ', '\u{e4}'];
+    // two different whitespace characters: substitution between kinds of whitespace must stay forbidden under
+    // spaces_insert_delete_only
+    let alpha = ['a', 'b', ' ', '\u{e4}', '\t'];
     let n = ctx.rng.random_range(0..=max);
     let mut s = String::new();
     for _ in 0..n {
         let r = ctx.rng.random_range(0..100);
         if r < 92 {
-            s.push(alpha[ctx.rng.random_range(0..4)]);
+            s.push(alpha[ctx.rng.random_range(0..if r < 10 { 5 } else { 4 })]);
         } else if r < 96 {
             s.push('\u{301}');
         } else {
@@ -208,7 +210,7 @@ fn mutate(ctx: &mut Ctx, a: &str) -> String {
     let mut cs: Vec<char> = a.chars().collect();
     let k = ctx.rng.random_range(0..=3);
     for _ in 0..k {
-        let alpha = ['a', 'b', ' ', '\u{e4}'];
+        let alpha = ['a', 'b', ' ', '\u{e4}', '\t', '\u{3000}'];
         match ctx.rng.random_range(0..4) {
             0 if !cs.is_empty() => {
                 let i = ctx.rng.random_range(0..cs.len());
@@ -216,7 +218,7 @@ fn mutate(ctx: &mut Ctx, a: &str) -> String {
             }
             1 => {
                 let i = ctx.rng.random_range(0..=cs.len());
-                cs.insert(i, alpha[ctx.rng.random_range(0..4)]);
+                cs.insert(i, alpha[ctx.rng.random_range(0..6)]);
             }
             2 if cs.len() >= 2 => {
                 let i = ctx.rng.random_range(0..cs.len() - 1);
@@ -224,7 +226,7 @@ fn mutate(ctx: &mut Ctx, a: &str) -> String {
             }
             _ if !cs.is_empty() => {
                 let i = ctx.rng.random_range(0..cs.len());
-                cs[i] = alpha[ctx.rng.random_range(0..4)];
+                cs[i] = alpha[ctx.rng.random_range(0..6)];
             }
             _ => {}
         }
@@ -237,6 +239,7 @@ pub fn run_c12(ctx: &mut Ctx) {
         ("", ""), ("", "a"), ("a", ""), (" ", "x"), ("ab", "ba"), ("this is a test", "tihsi s a test"),
         ("a b", "ab"), ("ab", "a b"), ("abc", "cab"), ("a\u{301}b", "ab"),
     ];
+    let corpus2: [(&str, &str); 4] = [("a b", "a\tb"), (" ", "\t"), ("a\u{3000}b c", "a b\tc"), ("\t a", " \ta")];
     let all_flags = |ctx: &mut Ctx, a: &str, b: &str, gs: &[bool]| {
         for &g in gs {
             for sw in [false, true] {
@@ -254,10 +257,20 @@ pub fn run_c12(ctx: &mut Ctx) {
         for (a, b) in corpus {
             all_flags(ctx, a, b, &[false, true]);
         }
+        for (a, b) in corpus2 {
+            all_flags(ctx, a, b, &[false, true]);
+        }
     }
     if ctx.thorough && ctx.first_shard() {
         // exhaustive: all pairs of strings of length ≤ 4 over {a,b,space} (code-point mode), all flags
         let all = gen::all_strings(&['a', 'b', ' '], 4);
+        for a in &all {
+            for b in &all {
+                all_flags(ctx, a, b, &[false]);
+            }
+        }
+        // two kinds of whitespace: all pairs of strings of length ≤ 3 over {a, space, tab}
+        let all = gen::all_strings(&['a', ' ', '\t'], 3);
         for a in &all {
             for b in &all {
                 all_flags(ctx, a, b, &[false]);
